@@ -20,14 +20,14 @@ import (
 
 // Partial is what a child process reports back to its parent (and what the parent accumulates itself).
 type Partial struct {
-	Evaluations  int64             `json:"evaluations"`
-	Nontrivial   []string          `json:"nontrivial"`
-	Samples      []json.RawMessage `json:"samples"`
-	Events       map[string]int64  `json:"events"`
+	Evaluations  int64               `json:"evaluations"`
+	Nontrivial   []string            `json:"nontrivial"`
+	Samples      []json.RawMessage   `json:"samples"`
+	Events       map[string]int64    `json:"events"`
 	Sets         map[string][]string `json:"sets"`
-	Violations   []Violation       `json:"violations"`
-	Inconclusive []string          `json:"inconclusive"`
-	Notes        []string          `json:"notes"`
+	Violations   []Violation         `json:"violations"`
+	Inconclusive []string            `json:"inconclusive"`
+	Notes        []string            `json:"notes"`
 }
 
 // Violation is one refutation of the property, with what is needed to recognise and replay it.
